@@ -21,6 +21,11 @@ def rootState : St :=
   { classes := [⟨1, 7⟩], roots := [⟨5, 1, some 3⟩],
     fields := [⟨.root 5, .raw 0⟩, ⟨.root 5, .none⟩] }
 
+/-- two Enum models that render alike, the second one behind root 5 -/
+def dupRootState : St :=
+  { classes := [⟨1, 7⟩, ⟨2, 7⟩], roots := [⟨5, 2, none⟩],
+    fields := [⟨.enum 1, .raw 0⟩, ⟨.root 5, .raw 1⟩] }
+
 /-- both at once, plus a near-duplicate (class 3, another key) that must stay -/
 def mixedState : St :=
   { classes := [⟨1, 7⟩, ⟨2, 7⟩, ⟨3, 8⟩], roots := [⟨5, 2, some 3⟩, ⟨6, 3, none⟩],
